@@ -40,6 +40,8 @@ beh("f02_mixed", ["C02", "C14"], cfg(), [E("k1"), C("k1", kind="mixedFA"), C("k1
                                        C("k1", kind="mixedAF", ck="k3", chain="self"), D("k1")])
 beh("f14_reset_after_fetch", ["C14"], cfg(), [E("k1"), M("resetAfterHandshake", "fetch"), D("k1"), M("resetAfterHandshake", "fetch"), M("resetAfterHandshake", "fetch"), D("k1"),
                                               C("k1", chain="selfNoSan"), C("k1", chain="selfNoSan", nsig="kx"), C("k1", ck="k2", chain="selfNoSan"), D("k1")])
+for sw in (False, True):
+    beh("f14_tokens" + ("w" if sw else ""), ["C14"], cfg(sw=sw), [E("k1"), M("unknownToken", "fetch"), D("k1"), M("garbageToken", "fetch"), M("unknownToken", "fetch"), D("k1")])
 beh("f14_aborts", ["C14"], cfg(), [E("k1"), M("clientAlert", "auth"), D("k1"), M("clientAlert", "fetch"), M("resetMidHello", "auth"), M("resetAfterHello", "fetch"), M("clientAlert", "pref"), D("k1"),
                                    M("rawSslv2"), M("rawOversizeRecord"), M("rawHttp"), M("rawBadVersion"), D("k1")])
 beh("f02_nobase", ["C02"], cfg(base=False), [E("k1"), C("k1", kind="base"), C("k1"), C("k1", kind="fetch")])
